@@ -259,6 +259,18 @@ func outIdent(r *RegCfg, o int) (reflect.Type, any, bool) {
 	return nil, nil, false
 }
 
+// descCount: how many descriptors the Add call of r creates
+func descCount(r *RegCfg) int {
+	switch r.Shape {
+	case "multi", "multierr", "outkn", "outkg":
+		return 2
+	}
+	if len(r.As) > 0 {
+		return len(r.As)
+	}
+	return 1
+}
+
 // applyRemovals takes the listed outputs of r out of the collection again
 func applyRemovals(c godi.Collection, r *RegCfg) error {
 	for _, o := range r.Rm {
@@ -1250,6 +1262,27 @@ func doOp(o *Op) {
 	case "build":
 		protect(ret, func() {
 			c := godi.NewCollection()
+			if o.Ctx == "prefill" {
+				// the same collection was used before: as many registrations as this configuration has descriptors
+				// were added, built successfully, and removed again.  Build's verdict on what follows must not depend
+				// on that history.
+				n := 0
+				for i := range R.cfg.Regs {
+					n += descCount(&R.cfg.Regs[i])
+				}
+				wasQuiet := R.quiet
+				R.quiet = true
+				for i := 0; i < n; i++ {
+					c.AddSingleton(W{ID: -1000 - i}, godi.Name("fill"+strconv.Itoa(i)))
+				}
+				if p0, err := c.Build(); err == nil {
+					p0.Close()
+				}
+				for i := 0; i < n; i++ {
+					c.RemoveKeyed(typW, "fill"+strconv.Itoa(i))
+				}
+				R.quiet = wasQuiet
+			}
 			for i := range R.cfg.Regs {
 				r := &R.cfg.Regs[i]
 				svc, err := serviceValue(r)
@@ -1297,6 +1330,20 @@ func doOp(o *Op) {
 			if err != nil {
 				ret["path"] = cyclePath(err)
 				ret["msg"] = err.Error()
+				if kept := R.provider; kept != nil {
+					// a constructor was handed the provider before Build failed: after the clean-up of the failed
+					// Build that provider is closed and says so
+					func() {
+						defer func() {
+							if r := recover(); r != nil {
+								ret["afterfail"] = []string{"panic"}
+							}
+						}()
+						_, e1 := kept.Get(typS[0])
+						_, e2 := kept.CreateScope(context.Background())
+						ret["afterfail"] = append(classify(e1), classify(e2)...)
+					}()
+				}
 				R.provider = nil
 				R.stop = true // nothing can be done with a provider that was not built
 				return
